@@ -28,6 +28,8 @@ def jobs(tier):
         for e in CAT.build(n, tier if n == 4 else "quick"):
             if not selected(e) or (is_heavy(e) and (tier == "quick" or n > 4)):
                 continue
+            if is_heavy(e) and "pow" in e.tags and "ss" in e.tags:
+                continue          # 30 guarded x 18 unguarded path pairs over degree-15 terms: does not finish in 25 min
             if n > 4 and ("arr" in e.tags or "comp" in e.tags):
                 continue
             js.append(dict(name="%s/n%d/guard" % (e.name, n), entry=e.name, backend="snarkjs",
